@@ -37,12 +37,12 @@ def obligations(tier):
                    cond_timeout=200, path_timeout=60, reach="c03_dyn_reach", encoded=ENC,
                    bounds="100 live modules on the dynamic range, the free id (none or any of 100..199) symbolic", symbolic="free id"),
         Obligation("options_honoured_through_connect_and_client_context", "harness.c06_opts", "opts",
-                   [{"entry": e, "name": n} for e in ("connect", "context") for n in (0, 1)], cond_timeout=200, path_timeout=60,
+                   [{"entry": e, "name": n} for e in ("connect", "context") for n in (0, 1)] + [{"entry": "connect", "name": n, "reconnect": 1} for n in (0, 1)], cond_timeout=200, path_timeout=60,
                    reach="opts_reach", reach_shards=[{"entry": "context", "name": 1}],
                    encoded=["pyrtma.client:Client.__init__", "pyrtma.client:Client.connect", "pyrtma.client:Client._connect_helper",
                             "pyrtma.client:client_context", "pyrtma.client:Client.send_module_ready"] + ENC,
-                   bounds="one client connecting to an otherwise empty manager through Client.connect and through client_context; name empty / non-empty",
-                   symbolic="module_id 0..99 (0 = dynamic), logger_status, daemon_status, allow_multiple"),
+                   bounds="one client connecting to an otherwise empty manager through Client.connect and through client_context; name empty / non-empty; a second connect on the same Client object after a lost connection",
+                   symbolic="module_id 0..99 (0 = dynamic), logger_status, daemon_status, allow_multiple, dynamic-id cursor 0..99"),
     ]
 
 
